@@ -490,8 +490,8 @@ fn c11_c12(which: &str) {
     let now = time::OffsetDateTime::now_utc();
     let fmt = |t: time::OffsetDateTime, off: (i8, i8), frac: bool| { let o = time::UtcOffset::from_hms(off.0, off.1, 0).unwrap(); let mut t = t.to_offset(o); if !frac { t = t.replace_nanosecond(0).unwrap(); } t.format(&Rfc3339).unwrap() };
     let offs = [(0i8, 0i8), (5, 0), (-8, 0), (23, 59), (-23, -59), (1, 30)];
-    let past = [time::Duration::seconds(2), time::Duration::hours(1), time::Duration::hours(7), time::Duration::days(400), time::Duration::days(365 * 40)];
-    let fut = [time::Duration::seconds(900), time::Duration::hours(1), time::Duration::hours(7), time::Duration::days(400), time::Duration::days(365 * 1000)];
+    let past = [time::Duration::seconds(2), time::Duration::hours(1), time::Duration::hours(7), time::Duration::days(400), time::Duration::days(365 * 40), time::Duration::days(365 * 57), time::Duration::days(365 * 400), time::Duration::days(365 * 1900)];
+    let fut = [time::Duration::seconds(900), time::Duration::hours(1), time::Duration::hours(7), time::Duration::days(400), time::Duration::days(365 * 1000), time::Duration::days(365 * 237), time::Duration::days(365 * 280), time::Duration::days(365 * 480), time::Duration::days(365 * 6900)];
     let mut cases: Vec<(String, bool)> = vec![]; // (json value text, must_accept) for exp; reversed for nbf
     for o in offs { for fr in [false, true] { for d in past { cases.push((format!("\"{}\"", fmt(now - d, o, fr)), false)); } for d in fut { cases.push((format!("\"{}\"", fmt(now + d, o, fr)), true)); } } }
     let bad = ["12345", "true", "false", "[1]", "{\"a\":1}", "\"\"", "\" \"", "\"garbage\"", "\"2019-01-01\"", "0", "1.5", "[]", "{}", "4102444800", "99999999999", "1e12", "-1", "\"4102444800\""];
@@ -635,6 +635,11 @@ fn c15() {
         exp!("scope=\"\" (token has scope=admin)", CustomClaim::try_from(("scope", "")).unwrap(), false);
         exp!("empty=\"\" (token has empty=\"\")", CustomClaim::try_from(("empty", "")).unwrap(), true);
         exp!("missing=\"\" (absent)", CustomClaim::try_from(("missing", "")).unwrap(), false); } }
+    // large integers are compared exactly
+    { let t_n = v4tok("{\"uid\":9007199254740993,\"neg\":-9007199254740993,\"big\":18446744073709551615}").0;
+      for (desc, claim, acc) in [("uid=9007199254740993", CustomClaim::try_from(("uid", 9007199254740993u64)).unwrap(), true), ("uid=9007199254740992 (differs by one above 2^53)", CustomClaim::try_from(("uid", 9007199254740992u64)).unwrap(), false), ("big=18446744073709551615", CustomClaim::try_from(("big", u64::MAX)).unwrap(), true), ("big=18446744073709551614", CustomClaim::try_from(("big", u64::MAX - 1)).unwrap(), false)] {
+          let mut p = GenericParser::<V4, Local>::default(); p.check_claim(claim); let r = p.parse(lk(&t_n), key).is_ok();
+          if r != acc { return wit(format!("C15 GenericParser expecting {desc} on payload {{uid:9007199254740993, big:18446744073709551615}} -> accepts = {r} but must be {acc}")); } } }
     // keys and values are compared verbatim
     { let t_ws = v4tok("{\"role\":\"x\",\" tenant\":\"t\",\"iat\":\"2019-01-01T00:00:00Z\",\"exp\":\"2999-01-01T00:00:00Z\",\"nbf\":\"2000-01-01T00:00:00Z\"}").0;
       macro_rules! ws { ($desc:expr, $cfg:expr, $acc:expr) => {{ let mut p = GenericParser::<V4, Local>::default(); $cfg(&mut p); let r = p.parse(lk(&t_ws), key);
